@@ -384,48 +384,105 @@ func sortedNames(m map[string]*thread) []string {
 	return ks
 }
 
-// lapse: no mutator at all -- the token's expires_at passes while its TokenInfo is cached.
-// "A token value authenticates only if it was issued, is enabled and has not expired."
-func runLapse(c *collector, tmp, mode string) error {
-	dir := filepath.Join(tmp, "lapse-"+mode)
+// expiry fragment (specs/auth/AuthExpiry.tla): one token with an expires_at, a controlled clock
+// (auth.VerifNow, substituted by source overlay) and VerifyToken calls at the clock positions
+// chosen by TLC. "A token value authenticates only if it ... has not expired."
+type expStep struct {
+	A   string `json:"a"`
+	Ok  bool   `json:"ok"`
+	Hit bool   `json:"hit"`
+}
+
+type expHist struct {
+	Exp   int       `json:"exp"`
+	TTL   int       `json:"ttl"`
+	Steps []expStep `json:"steps"`
+}
+
+const tick = 10 * time.Second
+
+var (
+	clockMu  sync.Mutex
+	clockNow time.Time
+)
+
+func fakeNow() time.Time {
+	clockMu.Lock()
+	defer clockMu.Unlock()
+	return clockNow
+}
+
+func advance(d time.Duration) {
+	clockMu.Lock()
+	clockNow = clockNow.Add(d)
+	clockMu.Unlock()
+}
+
+func runExpiry(c *collector, tmp, mode string, hs []*expHist) error {
+	if len(hs) == 0 {
+		return nil
+	}
+	dir := filepath.Join(tmp, "expiry-"+mode)
 	if err := os.MkdirAll(dir, 0o700); err != nil {
 		return err
 	}
 	defer os.RemoveAll(dir)
-	env, err := authkit.NewEnv(dir, mode, 5*time.Minute)
+	env, err := authkit.NewEnv(dir, mode, time.Duration(hs[0].TTL)*tick)
 	if err != nil {
 		return err
 	}
 	defer env.Close()
-	exp := time.Now().Add(1500 * time.Millisecond)
-	val := map[string]string{"cached": "verif-c21-lapse-token-value-0123456789abcdef-cached", "cold": "verif-c21-lapse-token-value-0123456789abcdef-cold"}
-	for i, k := range []string{"cached", "cold"} {
-		if _, err := env.CreateToken("lapse-"+k, val[k], "read", int64(i+1), &exp); err != nil {
-			return err
+	clockMu.Lock()
+	clockNow = time.Now().Truncate(time.Second)
+	clockMu.Unlock()
+	auth.VerifNow = fakeNow
+	defer func() { auth.VerifNow = time.Now }()
+	am := env.AM
+	for n, h := range hs {
+		val := fmt.Sprintf("verif-c21-expiry-token-value-0123456789abcdef-%d", n)
+		var expAt *time.Time
+		if h.Exp > 0 {
+			t := fakeNow().Add(time.Duration(h.Exp) * tick)
+			expAt = &t
+		}
+		if _, err := env.CreateToken(fmt.Sprintf("exp-%d", n), val, "read", int64(n+1), expAt); err != nil {
+			return fmt.Errorf("create expiring token: %w", err)
+		}
+		w := witness{Kind: "expiry", Mode: mode, Schedule: []string{fmt.Sprintf("expires_at = t0+%d ticks (0 = never), cache TTL = %d ticks", h.Exp, h.TTL)}}
+		at, hitsSoFar := 0, 0
+		for _, st := range h.Steps {
+			if st.A == "tick" {
+				advance(tick)
+				at++
+				continue
+			}
+			before := am.GetCacheStats()["cache_hits"].(int64)
+			ok := am.VerifyToken(val) != nil
+			hit := am.GetCacheStats()["cache_hits"].(int64) > before
+			w.Schedule = append(w.Schedule, fmt.Sprintf("verify@%d -> model ok=%v hit=%v", at, st.Ok, st.Hit))
+			w.Observed = append(w.Observed, fmt.Sprintf("verify@%d -> ok=%v hit=%v", at, ok, hit))
+			if ok && expAt != nil && fakeNow().After(*expAt) {
+				sig := "expired-token-accepted:database-row"
+				if hit && hitsSoFar > 0 {
+					sig = "expired-token-accepted:cache-entry-extended-on-hit"
+				} else if hit {
+					sig = "expired-token-accepted:stale-cache-entry"
+				}
+				c.add(c.vio, sig, w)
+			} else if ok != st.Ok || hit != st.Hit {
+				c.add(c.dr, "verification-differs-from-AuthExpiry.tla", w)
+			}
+			if hit {
+				hitsSoFar++
+			}
+		}
+		c.res.Runs++
+		c.res.PerKind["expiry:"+mode]++
+		c.keys[fmt.Sprintf("expiry|%s|%d|%v", mode, h.Exp, h.Steps)] = true
+		if n == 17 && len(c.res.Samples) < 6 {
+			c.res.Samples = append(c.res.Samples, w)
 		}
 	}
-	if time.Now().After(exp.Add(-300 * time.Millisecond)) {
-		return nil // the machine is too slow for this scenario right now: skip, never guess
-	}
-	if env.AM.VerifyToken(val["cached"]) == nil {
-		if time.Now().Before(exp) {
-			return fmt.Errorf("unexpired token does not authenticate")
-		}
-		return nil
-	}
-	time.Sleep(time.Until(exp) + 400*time.Millisecond)
-	w := witness{Kind: "lapse", Mode: mode, Schedule: []string{"init->cached", "expires_at passes (no mutator)", "final VerifyToken"}}
-	if env.AM.VerifyToken(val["cold"]) != nil {
-		w.Observed = []string{"uncached expired token authenticates"}
-		c.add(c.vio, "expired-token-accepted:database-row", w)
-	}
-	if env.AM.VerifyToken(val["cached"]) != nil {
-		w.Observed = []string{"VerifyToken succeeded before expiry (entry cached)", fmt.Sprintf("VerifyToken succeeds %s after expires_at", time.Since(exp).Round(time.Millisecond))}
-		c.add(c.vio, "expired-token-accepted:stale-cache-entry", w)
-	}
-	c.res.Runs++
-	c.res.PerKind["lapse:"+mode]++
-	c.keys["lapse|"+mode] = true
 	return nil
 }
 
@@ -435,7 +492,7 @@ func main() {
 	kinds := flag.String("kinds", "revoke,delete,rotate,expire", "")
 	modes := flag.String("modes", "direct,apply", "")
 	grace := flag.Duration("grace", 250*time.Millisecond, "how long a kick predicted to block is given to arrive")
-	lapse := flag.Bool("lapse", true, "also run the expiry-while-cached scenario")
+	expiry := flag.String("expiry", "", "json: list of {exp, ttl, steps} from AuthExpiry.tla")
 	flag.Parse()
 	b, err := os.ReadFile(*in)
 	if err != nil {
@@ -474,10 +531,20 @@ outer:
 			}
 		}
 	}
-	if *lapse && c.res.Infra == "" {
-		// no mutator is involved, so the mode does not matter: run it once
-		if err := runLapse(c, tmp, ms[0]); err != nil {
-			c.res.Infra = "lapse scenario: " + err.Error()
+	if *expiry != "" && c.res.Infra == "" {
+		eb, err := os.ReadFile(*expiry)
+		if err != nil {
+			fatal(err)
+		}
+		var ehs []*expHist
+		if err := json.Unmarshal(eb, &ehs); err != nil {
+			fatal(err)
+		}
+		for _, mode := range ms {
+			if err := runExpiry(c, tmp, mode, ehs); err != nil {
+				c.res.Infra = "expiry fragment: " + err.Error()
+				break
+			}
 		}
 	}
 	flat := func(m map[string]*finding) []finding {
